@@ -6,6 +6,7 @@ import Tickit.Proof.LifePens
 import Tickit.Proof.LifeKeys
 import Tickit.Proof.LifeMouse
 import Tickit.Proof.LifeTopSw
+import Tickit.Proof.LifeTop
 import Tickit.Gen.Life
 /-
   Property C08 — no API history touches freed or foreign memory, and everything is released.
@@ -515,5 +516,86 @@ theorem mock_resize_cells (t : RBFlush.MockTerm) (lines cols l c : Int) :
 
 example : ((mockResize ((RBFlush.MockTerm.new 6 10).goto 5 0 |>.print [0x61, 0x62]) 3 20).cells 2 0).str = some [0x20] := by
   decide +kernel
+
+/-! ## the terminal's bindings and input entry points, the toplevel instance (`Model/LifeTop.lean`)
+
+  The references the library itself holds in this layer are a parameter (`Ghost`) of the invariant of the lower layers:
+  the toplevel instance holds one reference to the terminal and one to the root window as long as it lives
+  (`instGhost`), an input entry point one more reference to the terminal while it works.  `TopInv` (Proof/LifeTop.lean)
+  is the invariant between two operations: the lower layers' invariant under what the instance holds (so the
+  terminal's count is the application's references + the instance's + the root window's, and no window holds more
+  than the application's and the instance's references), window handlers that free nothing, the terminal's binding
+  list (distinct ids, the root window's three handlers present only while it lives), the instance's own count (= the
+  application's references; no watch left once destroyed), the SIGWINCH chain (`SwOk`), and a root window that has
+  outlived its instance does not point to it any more. -/
+
+theorem extractedTop_trepaired : TRepaired extractedTop :=
+  ⟨extracted_repaired, extractedTop_repaired.1, extractedTop_repaired.2.1, extractedTop_repaired.2.2⟩
+
+/-- A history of this layer: every operation `no_ub` covers in the lower layers (with window handlers that free
+    nothing), key and mouse events, and the operations this layer adds - handlers bound on the terminal whose actions
+    are any API calls on windows (`tickit_window_unref` of any window included), `tickit_term_ref` and
+    `tickit_term_unref`; `tickit_term_input_push_bytes` / `_readable` / `_wait_*` / `_check_timeout_msec` with any
+    decodable input; the clock; `tickit_build` for a terminal, `tickit_ref` / `tickit_unref`, `tickit_watch_later` /
+    `_timer_after_msec` / `_cancel` with watches of any actions, `tickit_tick`; further terminals and SIGWINCH
+    observers; `tickit_term_set_input_fd`; printing on the mock terminal.  (`XOp.covered`; not covered:
+    `tickit_mockterm_resize`.) -/
+def TopHistory (ops : List XOp) : Prop := ∀ op ∈ ops, op.covered
+
+/-- **no_ub for the layer of the terminal's input and the toplevel instance**: from any state satisfying the invariant,
+    every history of covered operations in any order runs to the end - no freed object is touched, no NULL is
+    dereferenced, `abort()` is not called, no walk of the SIGWINCH list fails - and the invariant holds again.  In
+    particular `run_events_whilefalse` on the terminal finds the root window alive whenever it runs one of its three
+    handlers (a handler of the application that destroyed the root window has made them tombstones), the entry points
+    keep the terminal alive through handlers that drop the application's last reference to it, `tickit_destroy` gives
+    back exactly the two references the instance held, and a watch that fires during `tickit_tick` may drop any window
+    or the terminal's application references without the instance losing its terminal. -/
+theorem top_no_ub (ops : List XOp) (top : Top) (T : TopInv top) (h : TopHistory ops) :
+    ∃ top', xrunOps extractedTop top ops = .ok top' ∧ TopInv top' :=
+  xrun_top_ok extractedTop_trepaired ops top T h
+
+/-- The same from the very beginning: `new` / `newin` / `newtop`, then any covered history. -/
+theorem top_no_ub_from_start (start : XOp) (hstart : start.isNew = true) (ops : List XOp) (h : TopHistory ops) :
+    ∃ top', xrunOps extractedTop {} (start :: ops) = .ok top' ∧ TopInv top' :=
+  xrun_from_start extractedTop_trepaired start hstart ops h
+
+/-- **lifetime invariant of the layer**, spelled out on the state: (a) the terminal's binding list holds the root
+    window's handlers only while the root window lives; (b) while the toplevel instance lives the terminal it refers
+    to is alive, and the instance's count is the number of references the application holds; (c) a destroyed instance
+    has no watch left and nobody refers to it; (d) a terminal the application still refers to has not been freed;
+    (e) the lower layers' invariant holds with the instance's two references accounted for: the terminal's count is
+    the application's references plus the instance's plus one for a live root window. -/
+theorem top_lifetime_inv (start : XOp) (hstart : start.isNew = true) (ops : List XOp) (h : TopHistory ops) :
+    ∃ top, xrunOps extractedTop {} (start :: ops) = .ok top ∧
+      (∀ b ∈ top.tbinds, b.isApp = false → rootAlive top.st = true) ∧
+      (∀ i, top.inst = some i → i.freed = false → top.st.term.freed = false ∧ 1 ≤ top.st.term.refcount ∧
+        1 ≤ i.refcount ∧ i.refcount = (i.appRefs : Int)) ∧
+      (∀ i, top.inst = some i → i.freed = true → i.laters = [] ∧ i.timers = [] ∧ i.appRefs = 0) ∧
+      (top.st.term.freed = true → top.st.term.appRefs = 0) ∧
+      (top.st.term.freed = false → (∃ r, LiveW top.st.tree 0 r) →
+        top.st.term.refcount = (top.st.term.appRefs : Int) + (top.ghost.term : Int) + 1) ∧
+      SwOk top := by
+  obtain ⟨top, hr, T⟩ := top_no_ub_from_start start hstart ops h
+  obtain ⟨f1, f2, f3, f4⟩ := T.facts
+  exact ⟨top, hr, f1, f2, f3, f4, fun hf hl => T.f.inv.term_held hf (.inl hl), T.sw⟩
+
+/-- Non-vacuity: a terminal reading from a pipe whose key handler drops the root window, the application's reference
+    to the terminal and claims the event; a lone ESC that the timeout turns into a key; an instance whose deferred call
+    drops the root window and whose timer drops the terminal's application reference, `tickit_tick`, `tickit_unref`. -/
+example : TopHistory [.tbind .key true [.win (.unref 0), .tunref], .tpush [.chr], .tpush [.esc], .tick 60, .tcheck] := by
+  intro op hop; simp at hop
+  rcases hop with rfl | rfl | rfl | rfl | rfl <;> trivial
+
+example : (xrunOps extractedTop {} [.newin 6 12, .tbind .key true [.win (.unref 0), .tunref], .tpush [.chr], .tpush [.esc], .tick 60,
+    .tcheck]).isOk = true := by decide +kernel
+
+example : TopHistory [.base (.act (.ref 0)), .base .tref, .ilater [.win (.unref 0)], .itimer 5 [.tunref], .tick 10, .itick [.chr],
+    .iref, .iunref, .iunref] := by
+  intro op hop; simp at hop
+  rcases hop with rfl | rfl | rfl | rfl | rfl | rfl | rfl | rfl | rfl <;>
+    first | trivial | exact .inl ⟨.inl rfl, rfl, fun _ _ _ _ h => by cases h⟩
+
+example : (xrunOps extractedTop {} [.newtop 6 12, .base (.act (.ref 0)), .base .tref, .ilater [.win (.unref 0)], .itimer 5 [.tunref],
+    .tick 10, .itick [.chr], .iref, .iunref, .iunref]).isOk = true := by decide +kernel
 
 end Tickit.Props.C08
